@@ -122,7 +122,11 @@ def run(tier):
                        '(1) exhaustive maximum data-/return-stack depth over every path of every word, with native stack effects derived '
                        'from the IR of the generated run function, compared with the dp_stack/rp_stack arrays of the context structs; '
                        'stack balance at every join (no unbounded growth), acyclic call graph; stack pointers initialised to the arrays; '
-                       '(2) record-length gates of the four protection modes refuse every length that would underflow the decrypt arithmetic or exceed 2^14 plaintext bytes. '
+                       '(2) record-length gates of the four protection modes refuse every length that would underflow the decrypt arithmetic or exceed 2^14 plaintext bytes; '
+                       '(3) every context access of the T0 code lies inside the member it addresses (abstract interpretation, sa/t0access.py); '
+                       '(4) whole library: every variable-length memcpy/memmove/memset/br_ccopy (and in-place ASN.1->raw conversion) into a local array or an '
+                       'array member of a context struct is dead code under "length > room left" (sa/bufcopy.py; 67 of 117 such writes are decidable '
+                       'by the optimiser and armed, the others are listed as undecided in the evidence notes); the engine refuses records larger than its buffer. '
                        'NOT decided: memory safety of the C code of native words and hand-written decoders, termination beyond the acyclic '
                        'T0 call graph, arithmetic UB.',
                        assumptions=['the generated interpreter skeleton (dispatch switch, T0_ENTER, ret) is the T0 compiler\'s standard one; '
@@ -144,5 +148,7 @@ def run(tier):
     c02.length_gates(chk)
     from .. import engio, oblig as _ob
     _ob.run_obligations(chk, engio.bounds_obligations())
+    from .. import bufcopy
+    bufcopy.check(chk)
     chk.floor('interpreters', len(t0.INTERPRETERS), 7)
     return chk.finish()
